@@ -109,7 +109,7 @@ def plan(tier, seed):
             groups.append(pairs[k:k + 150])
     wf = []
     for mode in ("disp", "fsets", "fz", "mesh", "band", "qpoints", "dos", "pdos", "thermal", "tdisp", "writefc", "nac", "load"):
-        for var in range({"disp": 4, "mesh": 6, "band": 3, "qpoints": 2, "dos": 5, "pdos": 3, "thermal": 5, "tdisp": 3, "writefc": 4, "nac": 3, "fsets": 2, "fz": 1, "load": 4}[mode]):
+        for var in range({"disp": 4, "mesh": 6, "band": 3, "qpoints": 2, "dos": 5, "pdos": 3, "thermal": 5, "tdisp": 3, "writefc": 4, "nac": 3, "fsets": 2, "fz": 1, "load": 6}[mode]):
             wf.append({"kind": "workflow", "mode": mode, "var": var})
     for k in range(0, len(wf), 4):
         groups.append(wf[k:k + 4])
@@ -595,6 +595,42 @@ def run_workflow(case, seed):
             if np.abs(fy - lp.get_qpoints_dict()["frequencies"]).max() > 1e-9:
                 return fail("nac-phonons", "qpoints.yaml with --nac %s differs from the library" % opts)
             return dict(ok=True, nontrivial=True, transitions=2, outcome="ok:nac")
+        if mode == "load" and var >= 4:
+            # a calculation in another calculator's units, recorded only in the yaml file: phonopy-load writes force constants,
+            # reads them back, and must still give the phonons of the library on the same data
+            import phonopy
+            from phonopy.interface.calculator import get_default_physical_units
+
+            calc = ["qe", "siesta"][var - 4]
+            u = get_default_physical_units(calc)
+            lp0 = lib(seed, full_fc=True)
+            from phonopy import Phonopy
+            from phonopy.structure.atoms import PhonopyAtoms
+
+            uc = lp0.unitcell
+            phc = phx.quiet(Phonopy, PhonopyAtoms(symbols=uc.symbols, cell=np.asarray(uc.cell) / u["distance_to_A"], scaled_positions=uc.scaled_positions),
+                            supercell_matrix=np.diag([2, 2, 2]), primitive_matrix="F", calculator=calc, factor=u["factor"])
+            phc.force_constants = np.array(lp0.force_constants) * 0.37  # arbitrary numbers in the calculator's unit
+            phc.save("run.yaml", settings={"force_constants": True})
+            phc.run_qpoints([[0.1, 0.2, 0.3]])
+            want = phc.get_qpoints_dict()["frequencies"]
+            rc, out = cli(["run.yaml", "--writefc", "--writefc-format", "hdf5"], load=True)
+            if rc != 0 or not os.path.exists("force_constants.hdf5"):
+                return fail("phonopy-load-failed", out[-300:])
+            os.rename("run.yaml", "run2.yaml")
+            import yaml as _y
+
+            y2 = _y.safe_load(open("run2.yaml"))
+            y2.pop("force_constants", None)
+            open("nofc.yaml", "w").write(_y.safe_dump(y2))
+            rc, out = cli(["nofc.yaml", "--readfc", "--readfc-format", "hdf5", "--qpoints", "0.1 0.2 0.3"], load=True)
+            if rc != 0:
+                return fail("phonopy-load-readfc-failed", out[-300:])
+            y = yaml.safe_load(open("qpoints.yaml"))
+            got = np.array([[b["frequency"] for b in p["band"]] for p in y["phonon"]])
+            if np.abs(got - want).max() > 1e-6 * np.abs(want).max():
+                return fail("writefc-readfc-units/%s" % calc, "force constants written and read back by phonopy-load for a %s calculation give frequencies %s instead of %s" % (calc, got[0, -2:].round(4).tolist(), want[0, -2:].round(4).tolist()))
+            return dict(ok=True, nontrivial=True, transitions=3, outcome="ok:load:units")
         if mode == "load":
             import phonopy
 
